@@ -61,6 +61,17 @@ class FS:
                     rec[0] -= 1
                     f = rec[1]
                     break
+        if f == 'RMPARENT':
+            # somebody else's clean-up removed the (empty) directory: a real state change, not just an errno
+            self.fired[f'{kind}:RMPARENT'] = self.fired.get(f'{kind}:RMPARENT', 0) + 1
+            d = _os.path.dirname(str(path))
+            try:
+                while d and not _os.listdir(d):
+                    _os.rmdir(d)
+                    d = _os.path.dirname(d)
+            except OSError:
+                pass
+            return
         if f is not None:
             self.fired[f'{kind}:{f}'] = self.fired.get(f'{kind}:{f}', 0) + 1
             if f == 'ENOSPC' and kind == 'write' and data:
